@@ -15,7 +15,8 @@ def make(shape, cards, names=None, attrs=None, trees=None):
     """attrs: [(feature index, name, ('range', lo, hi) | ('ranges', [(lo, hi), ...]) | ('enum', [texts]), default text, null text)]"""
     n = R.n_features(shape)
     names = names or ['F%d' % i for i in range(n)]
-    ctcs = [R.ctc('c%d' % i, t) for i, t in enumerate(trees or [])]
+    cn = R.ctc_names(len(trees or []), n + len(cards))
+    ctcs = [R.ctc(cn[i], t) for i, t in enumerate(trees or [])]
     m = R.build(shape, cards, names=names, ctcs=ctcs)
     if attrs:
         feats = _index(m)
